@@ -67,17 +67,18 @@ Theorem pixel_oob_none img p : contains (origin_box (ir_size img)) p = false -> 
 Proof. apply raw_pixel_outside. Qed.
 
 Theorem draw_sub_image_rejects img area :
-  ~ inside (ir_size img) area -> 0 <= sw (sz area) -> 0 <= sh (sz area) -> raw_draw_sub_image img area = [].
+  ~ inside (ir_size img) area -> direct_area_fits img area -> raw_draw_sub_image img area = [].
 Proof.
-  intros Hn Hw Hh. unfold raw_draw_sub_image. destruct (_ || _) eqn:E; [reflexivity|].
+  intros Hn Hf. assert (Hw : 0 <= sw (sz area)) by (unfold direct_area_fits in Hf; lia).
+  assert (Hh : 0 <= sh (sz area)) by (unfold direct_area_fits in Hf; lia). unfold raw_draw_sub_image. destruct (_ || _) eqn:E; [reflexivity|].
   exfalso. apply Hn. unfold inside, is_zero_sized in *. lia.
 Qed.
 
 Theorem sub_image_outside_empty d area o :
-  d_wf d -> size_nonneg area -> (forall p, contains (d_box d) p && contains area p = false) ->
+  d_wf d -> area_fits area -> (forall p, contains (d_box d) p && contains area p = false) ->
   image_draw (Img (sub_image d area) o) = [] /\ is_zero_sized (d_box (sub_image d area)) = true.
 Proof.
-  intros H Ha Hdis.
+  intros H Ha Hdis. apply area_fits_nonneg in Ha.
   assert (Hz : is_zero_sized (intersection (d_box d) area) = true).
   { apply intersection_empty; [apply d_box_nonneg; assumption|assumption|exact Hdis]. }
   split; [|exact Hz]. unfold image_draw, sub_image. cbn [im_drawable d_draw].
